@@ -191,7 +191,7 @@ pub fn check(cfg: &RunCfg, _findings: &Findings) -> Report {
     cfg,
     "C15-layouts",
     16,
-    if quick { 15_000 } else { 120_000 },
+    if quick { 45_000 } else { 120_000 },
     64,
     300,
     |src: &mut Src| -> Option<(String, Layout)> {
